@@ -393,4 +393,34 @@ pub fn cmd_merge(arg: &str) -> String {
     r.unwrap_or_else(|| "PANIC".into())
 }
 
+/// squeue <cap> <limit> <op>|<op>|...   op = D | P:<ev,ev,...>
+/// One StatsQueue of the given capacity shared by "workers" (each P: a fresh PerClientStats, its
+/// snapshot published with force_push when non-empty, as Server::send_client_stats does) and one
+/// Reporter (D: receive_client_stats). Output: the reporter's merged map.
+pub fn cmd_squeue(arg: &str) -> String {
+    let p: Vec<String> = arg.trim().splitn(3, ' ').map(|s| s.to_string()).collect();
+    let r = guarded(move || {
+        let cap: usize = p[0].parse().unwrap();
+        let limit: usize = p[1].parse().unwrap();
+        let q = Arc::new(StatsQueue::new(cap));
+        let mut rep = Reporter::new(q.clone(), &Duration::from_secs(600), None);
+        for op in p.get(2).map(|s| s.as_str()).unwrap_or("").split('|').filter(|s| !s.is_empty()) {
+            if op == "D" {
+                rep.receive_client_stats();
+            } else {
+                let mut s = PerClientStats::with_limit(limit);
+                for ev in op[2..].split(',').filter(|x| !x.is_empty()) {
+                    apply_op(&mut s, ev);
+                }
+                let snap: Vec<ClientStats> = s.iter().map(|(_, c)| *c).collect();
+                if !snap.is_empty() {
+                    q.force_push(snap);
+                }
+            }
+        }
+        format!("C={}", render_clients(rep.merged_client_stats()))
+    });
+    r.unwrap_or_else(|| "PANIC".into())
+}
+
 pub fn cmd_grease(_: &str) -> String { "TODO".into() }
